@@ -41,10 +41,16 @@ def _fresh_path():
     return os.path.join(d, f"fresh-{tag}.json")
 
 
+def _names(tier):
+    """specifications of this tier (names ending in _heavy need seconds per call: thorough only)"""
+    from vmon import specs
+    return [n for n in specs.SPECS if tier == "thorough" or not n.endswith("_heavy")]
+
+
 def _editable(tier):
     """specifications for which edited-object steps are generated (plots only in the thorough tier: each needs a new interpreter)"""
     from vmon import specs
-    return [n for n in specs.SPECS if tier == "thorough" or not specs.SPECS[n].fig]
+    return [n for n in _names(tier) if tier == "thorough" or not specs.SPECS[n].fig]
 
 
 def prepare(tier, seed):
@@ -57,7 +63,7 @@ def prepare(tier, seed):
     from concurrent.futures import ThreadPoolExecutor
     from vmon import specs
     py = "/venv/bin/python" if os.path.exists("/venv/bin/python") else sys.executable
-    names = list(specs.SPECS)
+    names = _names(tier)
     strict = names if tier == "thorough" else [n for n in names if specs.SPECS[n].fig or specs.SPECS[n].np_seed is not None]
     rest = [n for n in names if n not in strict]
     # "<spec>@edited": the same call on arguments edited in place before the first call (reference for the edited-object steps)
@@ -371,6 +377,8 @@ def _run_history(ctx, steps):
                     ctx.count("default_arguments_changed")
                     differs = []
                     for pn, ps in specs.SPECS.items():
+                        if pn not in ref:
+                            continue
                         if ps.func.replace(":", ".").endswith(fname.split(":")[1]) or fname.split(":")[1] == ps.func.split(":")[1]:
                             v, inj = run_spec(ctx, pn, record_args=False)
                             if v != ref[pn]:
@@ -464,7 +472,7 @@ def generate(tier, seed):
     from vmon import specs
     rng = random.Random(20000 + seed)
     thorough = tier == "thorough"
-    names = list(specs.SPECS)
+    names = _names(tier)
     figs = [n for n in names if specs.SPECS[n].fig]
     yield "coverage", {}, True
     # each plotting default call directly followed by every plotting spec (default-dict leaks) and a few others
